@@ -59,6 +59,7 @@ def build_jobs(tier):
         texts += F.f_mem((3,), deltas=[0, 16, 32], ops=("MSTORE", "MLOAD", "MSTORE8"))
         texts += F.f_mem_byte_in_word()
         texts += F.f_mem_shared_values(deltas=(0, 1, 32), tail=(None, "MLOAD"))[::2]
+        texts += F.f_mem_repeated_store(deltas=(0, 1, 32))[::2]
         texts += F.f_exh(2)
     else:
         texts += F.f_rule_pairs(both, consts=F.K3, contexts=("stack", "consumed"), chains=(0, 1))
@@ -68,6 +69,7 @@ def build_jobs(tier):
         texts += F.f_mem((2,), deltas=[0, 32], mixed=True)
         texts += F.f_mem_byte_in_word(deltas=(0, 1, 16, 31, 32, 33))
         texts += F.f_mem_shared_values()
+        texts += F.f_mem_repeated_store()
         texts += F.f_exh(3)
     texts += F.f_rule_siblings(ops, consts=(0, 1))[:: (4 if tier == "quick" else 1)]
     texts += F.f_rule_triples(both)[:: (4 if tier == "quick" else 1)]
